@@ -13,12 +13,13 @@ func init() {
 			ruleIndexRebuildComplete(c, "R2")
 			ruleSummaryRebuilt(c, "R3")
 			ruleCleanTestsEveryChild(c, "R8")
-			ruleExhaustiveWalks(c, "R4", []string{"tree.(*node).clean", "tree.(*node).routes"}, "Clean removes every route under the prefix and Routes() lists every live pattern: the walks visit every child")
+			ruleExhaustiveWalks(c, "R4", []*ssa.Function{c.A.TreeClean, c.A.TreeRoutes}, "Clean removes every route under the prefix and Routes() lists every live pattern: the walks visit every child")
 			ruleRemoveAllDropsEverything(c, "R5")
 			ruleFacadeRemovals(c, "R6")
 			ruleRoutesLiveness(c, "R7")
 			ruleSummaryIsNotLiveness(c, "R7b")
 			ruleSortAfterInsert(c, "R9")
+			ruleGuardedIndexing(c, "R11")
 			ruleSearchTriesEverySibling(c, "R10", []*ssa.Function{c.A.TreeRemove}, "a removed pattern is gone: the lookup of the node to remove tries every sibling")
 		},
 	})
